@@ -141,6 +141,39 @@ def _reshape_cases(fails):
   sh = common_utils.shard(x)
   if np.asarray(sh['a']).shape != (d, 3, 2) or not np.array_equal(np.asarray(sh['a']).reshape(d * 3, 2), x['a']) or not np.array_equal(np.asarray(sh['b']).reshape(-1), x['b']):
     fails.append(dict(inputs=dict(fn='shard', devices=d), observed='shard is not the reshape to (devices, -1, ...)', violated='reshape-helpers'))
+  # shard for every multiple of the device count - also exactly one example per device
+  for k in (1, 2, 3):
+    cases += 1
+    xb = {'feat': np.arange(d * k * 3).reshape(d * k, 3), 'label': np.arange(d * k), 'img': np.arange(d * k * 2 * 2).reshape(d * k, 2, 2)}
+    shb = common_utils.shard(xb)
+    for name, leaf in xb.items():
+      want = leaf.reshape((d, k) + leaf.shape[1:])
+      got = np.asarray(shb[name])
+      if got.shape != want.shape or not np.array_equal(got, want):
+        fails.append(dict(inputs=dict(fn='shard', devices=d, batch=d * k, leaf=name), observed=f'shape {got.shape}, the reshape to (devices, -1, ...) gives {want.shape}', violated='reshape-helpers'))
+        return cases
+  # get_metrics: unreplicated (x[0]) and stacked over the recorded steps - also for metrics replicated over a SUBSET of the devices
+  for kdev in sorted({1, 2, d}):
+    if kdev > d:
+      continue
+    for T in (1, 3):
+      cases += 1
+      devs_k = jax.local_devices()[:kdev]
+      step = jax.pmap(lambda v: {'loss': jax.lax.pmean(v.sum(), 'b'), 'acc': jax.lax.pmean(v.mean(), 'b')}, axis_name='b', devices=devs_k)
+      recorded, wants = [], []
+      for t in range(T):
+        v = np.arange(kdev * 3, dtype=np.float32).reshape(kdev, 3) + t
+        recorded.append(step(jnp.asarray(v)))
+        wants.append({'loss': v.sum(1).mean(), 'acc': v.mean(1).mean()})
+      try:
+        gm = common_utils.get_metrics(recorded)
+        ok = all(np.asarray(gm[kk]).shape == (T,) and np.allclose(np.asarray(gm[kk]), [w[kk] for w in wants], atol=1e-5) for kk in ('loss', 'acc'))
+        msg = f"shapes {[np.asarray(gm[kk]).shape for kk in ('loss', 'acc')]}, expected ({T},) each with the per-step values"
+      except Exception as e:  # noqa
+        ok, msg = False, f'raised {e!r}'[:200]
+      if not ok:
+        fails.append(dict(inputs=dict(fn='get_metrics', replicated_over=kdev, local_devices=d, steps=T), observed=msg, violated='reshape-helpers'))
+        return cases
   cases += 1
   forest = [{'w': np.full((2,), i), 'k': {'v': np.array(i * 10)}} for i in range(3)]
   st = common_utils.stack_forest(forest)
@@ -210,7 +243,7 @@ def run(tier, seed):
       break
   import jax
   return dict(name=NAME, cases=cases, distinct=cases,
-              bound=f'scan_in_dim: all ordered axis tuples of length 1-3 of shapes (2,3,4), (2,3,2,2) x keepdims; pad_shard_unpad: batch 1..{2 * jax.local_device_count() + 1} on {jax.local_device_count()} host devices x min_device_batch {{None,1,2,3}}; prefetch_to_device: buffer size 1..3 x source length 0..5 x every failing position; onehot (3 label shapes x 6 on/off pairs incl. inf / nan), shard, stack_forest (+ 5 mixed-dtype forests), unreplicate x 8 device layouts',
+              bound=f'scan_in_dim: all ordered axis tuples of length 1-3 of shapes (2,3,4), (2,3,2,2) x keepdims; pad_shard_unpad: batch 1..{2 * jax.local_device_count() + 1} on {jax.local_device_count()} host devices x min_device_batch {{None,1,2,3}}; prefetch_to_device: buffer size 1..3 x source length 0..5 x every failing position; onehot (3 label shapes x 6 on/off pairs incl. inf / nan), shard, stack_forest (+ 5 mixed-dtype forests), unreplicate x 8 device layouts, shard with 1-3 examples per device, get_metrics over pmaps on 1 / 2 / all devices',
               failures=fails[:2], error=None)
 
 
